@@ -505,6 +505,12 @@ func (e *Engine) srcInfo(pkg *packages.Package, decl *ast.FuncDecl) (string, int
 
 // applyContract replaces a call by the callee's contract.
 func (e *Engine) applyContract(fr *frame, st *State, fn *types.Func, decl *ast.FuncDecl, fs *spec.FuncSpec, args []Val, k func(st *State, rets []Val)) {
+	if e.Applied == nil {
+		e.Applied = map[string]bool{}
+	}
+	if p := e.fpkg[fn]; p != nil {
+		e.Applied[p.Types.Name()+"."+specKey(fn)] = true
+	}
 	v := fr.ver
 	calleeSp := e.Specs[fn.Pkg().Path()]
 	names, _ := paramNames(decl, e.fpkg[fn].TypesInfo)
